@@ -416,6 +416,11 @@ pub fn gen_frame(r: &mut Rng, target: &str, want: usize) -> Vec<u8> {
 }
 
 fn gen_len(r: &mut Rng, step: usize) -> usize {
+    // now and then (production constants) a frame of several hundred growth steps: together with short
+    // frames in front of it, everything coalesced, the buffer is filled by hundreds of reads of one step each
+    if r.chance(1, 40) && crate::buffer_max() > 1 << 20 {
+        return r.range(258 * step, 600 * step);
+    }
     match r.below(9) {
         // now and then a frame that needs many growth steps
         8 => r.range(17 * step, 40 * step).min(crate::buffer_max() / 3),
